@@ -19,6 +19,10 @@ fn wide<const BA: usize, const LA: usize, const BB: usize, const LB: usize, cons
     let a: Uint<BA, LA> = j_to_uint(&scn["a"]);
     let b: Uint<BB, LB> = j_to_uint(&scn["b"]);
     ev.rec("wide", || a.widening_mul::<BB, LB, BR, LR>(b));
+    // result types whose size is NOT BITS + BITS_RHS: documented to panic ("will runtime panic if the const generic
+    // arguments are incorrect"); 701 and 1 are the sum of no compiled pair, <64, 2> has the wrong limb count
+    ev.rec("ws_wide701", || a.widening_mul::<BB, LB, 701, 11>(b));
+    ev.rec("ws_wide1", || a.widening_mul::<BB, LB, 1, 1>(b));
     ev.finish()
 }
 
